@@ -878,7 +878,7 @@ func Corpus() []Input {
 		{Judged: true, Sched: []int{3, 1, 2, 1, 1, 7},
 			Batches: []Batch{{1, []Op{{Group: 1, Name: 1, Action: "set", Value: ip(8), Labels: lbl(1, 1)}, {Group: 2, Name: 1, Action: "set", Value: ip(16), Labels: lbl(1, 2)},
 				{Name: 3, Action: "add", Value: ip(4), Labels: lbl(2, 1)}}}},
-			Round: []Batch{{1, []Op{{Group: 1, Name: 1, Action: "set", Value: ip(40), Labels: lbl(1, 2)}, {Group: 4, Name: 7, Action: "set", Value: ip(12), Labels: lbl(11, 14)}}},
+			Round: []Batch{{1, []Op{{Group: 1, Name: 1, Action: "set", Value: ip(40), Labels: lbl(1, 1, 2, 1)}, {Group: 4, Name: 7, Action: "set", Value: ip(12), Labels: lbl(11, 14)}}},
 				{2, []Op{{Group: 2, Action: "expire"}, {Group: 5, Name: 7, Action: "set", Value: ip(20), Labels: lbl(11, 15)}, {Name: 3, Action: "add", Value: ip(4), Labels: lbl(2, 1)}}}}},
 		// one of the concurrent batches is invalid: nothing of it is applied, the other one is
 		{Judged: true, Batches: []Batch{}, Sched: []int{2, 1, 1},
